@@ -219,6 +219,20 @@ pub fn l5_packets() -> Vec<(&'static str, Vec<u8>)> {
     m.ar.push(opt_variants()[2].clone());
     m.ar.push(a_rec(&nm("ns.example.com"), 1, [1, 2, 3, 5]));
     v.push(("case", encode(&m, Strategy::Plain)));
+    // names that differ only in bit 5 of a NON-letter byte ('[' / '{', '@' / '`', '^' / '~', 0xc1 / 0xe1) are
+    // different names; true case twins of them are equal
+    for (x, y) in [(b'[', b'{'), (b'@', b'`'), (b'^', b'~'), (b']', b'}'), (0xc1u8, 0xe1u8), (b'1', b'Q'), (b'-', b'M')] {
+        let n1 = name_from_labels(&[&[b'a', x, b'b'], b"example"]);
+        let n2 = name_from_labels(&[&[b'a', y, b'b'], b"example"]);
+        let n1u = name_from_labels(&[&[b'A', x, b'B'], b"EXAMPLE"]);
+        let mut m = base_msg(&n1, T_A, true);
+        m.an.push(name_rec(&n2, T_CNAME, 1, &n1u));
+        m.an.push(mx_rec(&n1u, 1, 1, &n2));
+        m.ns.push(soa_rec(&n2, 1, &n1, &n2));
+        m.ar.push(a_rec(&n1, 1, [1, 2, 3, 4]));
+        m.ar.push(a_rec(&n2, 1, [1, 2, 3, 5]));
+        v.push(("case", encode(&m, Strategy::Plain)));
+    }
     v.push(("sink", kitchen_sink(Strategy::Plain)));
     v
 }
